@@ -83,7 +83,7 @@ def run(pid, tier, seed):
 
     # 4. correspondence + the property's direct oracle on the implementation
     cases = []
-    n_cmp = n_diff = 0
+    n_cmp = n_diff = n_abnormal = 0
     cats = {}
     samples = []
     nontrivial = set()
@@ -108,7 +108,13 @@ def run(pid, tier, seed):
                         n_diff += 1
                         if len(first_diffs) < 5:
                             first_diffs.append({'case': c['line'], 'impl': io[:2000], 'model': mo[:2000], 'profile': prof})
-                why = mod.check_impl(c, io, ctx, prof) if hasattr(mod, 'check_impl') else None
+                abnormal = io in ('timeout', 'not-run') or io.startswith('crash')
+                if abnormal:
+                    n_abnormal += 1
+                if abnormal and not getattr(mod, 'HANDLES_ABNORMAL', False):
+                    why = None
+                else:
+                    why = mod.check_impl(c, io, ctx, prof) if hasattr(mod, 'check_impl') else None
                 if why:
                     kf = match_known(known, c, why)
                     if kf is None and hasattr(mod, 'classify'):
@@ -122,6 +128,8 @@ def run(pid, tier, seed):
                     nontrivial.add(c['line'])
                 if len(samples) < 6 and (len(samples) < 2 or c['cat'] not in [s['cat'] for s in samples]):
                     samples.append({'cat': c['cat'], 'case': c['line'][:300], 'impl': io[:300]})
+        if n_abnormal and not violations:
+            broken.append(Broken('the implementation run did not complete on %d cases (timeout or crash of the harness process)' % n_abnormal))
         if n_diff:
             broken.append(Broken('correspondence: model and implementation differ on %d of %d cases' % (n_diff, n_cmp),
                                  json.dumps(first_diffs, indent=1)))
